@@ -935,6 +935,8 @@ func (f *TF) FFun(name string, args ...*Term) *Term {
 }
 
 var concreteFFun = map[string]func([]float64) float64{
+	"exact_add": func(x []float64) float64 { return x[0] + x[1] },
+	"exact_sub": func(x []float64) float64 { return x[0] - x[1] },
 	"sin":       func(x []float64) float64 { return math.Sin(x[0]) },
 	"cos":       func(x []float64) float64 { return math.Cos(x[0]) },
 	"tan":       func(x []float64) float64 { return math.Tan(x[0]) },
